@@ -15,7 +15,7 @@ static void body(Ctx& C)
           "parameter; after every binding every parameter of the pool is queried and compared with a std::map model (latest binding, "
           "else the parameter itself); elementary substitutions: one binding, every pool parameter queried; non-trivial = >= 2 parameters");
    C.need("elementary_queries_in_domain"); C.need("elementary_queries_outside_domain"); C.need("general_queries_in_domain");
-   C.need("general_queries_outside_domain"); C.need("rebindings"); C.need("self_bindings"); C.need("parameter_lists");
+   C.need("general_queries_outside_domain"); C.need("rebindings"); C.need("self_bindings"); C.need("parameter_lists"); C.need("parameters_with_a_default");
    Rng seeds(C.seed);
    const int nhist = C.thorough ? 6000 : 120;
    for (int h = 0; h < nhist; ++h) {
@@ -53,6 +53,12 @@ static void body(Ctx& C)
          for (auto m : maps) if (m->parameters().size() == 0) pool.push_back(m->param(id0, L.int_type()));
          for (auto o : others) if (o->size() == 0) pool.push_back(o->add_member(id0, L.int_type()));
          C.count("parameter_lists", (long long)(maps.size() + others.size()));
+      }
+      // some parameters carry a default argument (a value, or another parameter): a substitution knows nothing about defaults
+      {
+         std::vector<const Expr*> defaults;
+         for (int i = 0; i < 4; ++i) { std::string d = "default" + std::to_string(i); defaults.push_back(lex.make_literal(L.int_type(), std::u8string_view(reinterpret_cast<const char8_t*>(d.data()), d.size()))); }
+         for (auto p : pool) if (rng.chance(40)) { const_cast<impl::Parameter*>(static_cast<const impl::Parameter*>(p))->init = rng.chance(80) ? defaults[rng.below(4)] : static_cast<const Expr*>(rng.pick(pool)); C.count("parameters_with_a_default"); }
       }
       np = int(pool.size());
       std::vector<const Expr*> values;
